@@ -37,7 +37,7 @@ class C04(Spec):
     prop = "C04"
     coq_targets = ["Props/C04.vo"]
     prop_module = "Props.C04"
-    theorems = ['C04_bit_copy_no_panic', 'C04_per_readers_no_panic', 'C04_octetstring_reader_no_panic', 'C04_refuted_untrusted_length_alloc', 'C04_read_bit_within_len', 'C04_read_bits_within_len', 'C04_der_total', 'C04_uper_total', 'C04_uper_total_bytes', 'C04_src_of_bytes_inv', 'C04_remaining_callable', 'C04_remaining_in_invariant', 'C04_pos_le_len_preserved', 'C04_entry_total', 'C04_refuted_size_octets', 'C04_refuted_size_string', 'C04_refuted_size_bitstring', 'C04_refuted_size_sequence_of', 'C04_refuted_size_large_upper', 'C04_refuted_bitstring_unconstrained', 'C04_refuted_bitstring_extensible', 'C04_ext_count_overflow_is_error', 'C04_nonvacuous']
+    theorems = ['C04_bit_copy_no_panic', 'C04_per_readers_no_panic', 'C04_octetstring_reader_no_panic', 'C04_refuted_untrusted_length_alloc', 'C04_read_bit_within_len', 'C04_read_bits_within_len', 'C04_der_total', 'C04_uper_total', 'C04_uper_total_bytes', 'C04_src_of_bytes_inv', 'C04_remaining_callable', 'C04_remaining_in_invariant', 'C04_pos_le_len_preserved', 'C04_entry_total', 'C04_refuted_size_octets', 'C04_refuted_size_string', 'C04_refuted_size_bitstring', 'C04_refuted_size_sequence_of', 'C04_refuted_size_large_upper', 'C04_refuted_bitstring_unconstrained', 'C04_refuted_bitstring_extensible', 'C04_ext_count_overflow_is_error', 'C04_proto_total', 'C04_proto_refuted_nested_list', 'C04_proto_no_overread', 'C04_proto_primitives_total', 'C04_nonvacuous']
     builds = [("default", "dev"), ("default", "release"), ("protobuf", "dev"), ("protobuf", "release")]
     timeout_per_chunk = 600
     xcheck_n = 100
